@@ -49,6 +49,13 @@ def check(run: Run) -> None:
     run.rule("C03.R3", "negation is complement: the negated form differs from the positive form in exactly the outermost membership operator; negated comparisons use the complementary operator and keep `in_`")
     run.rule("C03.R4", "LIKE literalness: every pattern built from query text escapes backslash, % and _ (minus the granted glob) and passes escape=")
     run.rule("C03.R5", "typed comparison table: DATE/INTEGER/STRING pair a column cast with the matching value conversion; BASIC maps to NULL and is compared with ==")
+    run.rule("C03.R6", "what the converter is handed: the query compiler's atom tables (tag / property / text / file / link atoms: negation bit, operator, case flag, value as written) "
+                       "are the C04.R1 and C04.R4 obligations, adopted here because `returns exactly the matching notes` starts from the query text")
+    from . import c04
+
+    sub = Run("C04", run.tier, run.repo)
+    c04.check(sub)
+    run.floor("adopted compiler obligations", run.adopt(sub, ("C04.R1", "C04.R4"), "C03.R6"), 40)
     I = make_interp(model)
     helpers = model.table_members().get(f"{QC}._TO_SQL_WHERE_HELPERS", [])
     run.floor("registered SQL helpers", len(helpers), 9)
